@@ -1,7 +1,7 @@
 (* C04 -- property theorems only. `_refuted` theorems are facts about the faithful model of the CURRENT code
    (the correspondence check replays their witnesses on the implementation); see known_findings.json. *)
 From Coq Require Import ZArith List Bool.
-From WNTRV Require Import Lib.Sched C04.Proofs C04.AtTime C04.RuleGe C04.Prio C04.Window.
+From WNTRV Require Import Lib.Sched C04.Proofs C04.AtTime C04.RuleGe C04.Prio C04.Window C04.AtTimeSet.
 Import ListNotations.
 Local Open Scope Z_scope.
 
@@ -109,6 +109,35 @@ Example C04_window_run :
   option_map (fun r => map fst (fst r)) (steps 20 (gw 1000 2500 3600 360 0 7200 0 [false] 3) 7200 (init_state (gw 1000 2500 3600 360 0 7200 0 [false] 3)))
   = Some [0; 1000; 2500; 3600; 7200].
 Proof. vm_compute. reflexivity. Qed.
+(* ANY NUMBER of AT TIME controls at pairwise distinct positive instants -- any targets (several controls may share one), values and
+   priorities, any hydraulic and rule grids, no rules: `is_S T st` says that st has the length of the initial statuses and that every link
+   shows the value of the control on it with the LATEST instant <= T, its initial value if there is none.  Every solved step of every run
+   satisfies it at its own time; every control instant the run has passed is a solved step, unless the statuses required at that instant are
+   those an already solved step (or the initial state) shows, i.e. the control commanded what its link already had; and for a duration that
+   is a positive multiple of the hydraulic step such a run exists and ends at the duration.  (Induction through the two stable sorts -- as
+   permutations, sortedness by backtrack and, with distinct instants, strictness --, the presolve loop over the sorted list with the rule
+   instants interleaved, and the steps.) *)
+Theorem C04_at_time_set_exact : forall cs hs rs sc D st0, 0 < rs -> 0 < hs -> (forall a, In a cs -> 0 < a_thr a) -> NoDup (map a_thr cs) ->
+  forall D' f tr sf, steps f (gs cs hs rs sc D st0) D' (init_state (gs cs hs rs sc D st0)) = Some (tr, sf) ->
+  (forall e, In e tr -> is_S cs st0 (fst e) (snd e)) /\
+  (forall a, In a cs -> a_thr a <= s_prev sf ->
+     In (a_thr a) (map fst tr) \/ exists st, (st = st0 \/ In st (map snd tr)) /\ is_S cs st0 (a_thr a) st).
+Proof. intros cs hs rs sc D st0 H1 H2 H3 H4 D' f tr sf H. exact (at_time_set_exact cs hs rs sc D st0 H1 H2 H3 H4 D' f tr sf H). Qed.
+Theorem C04_at_time_set_total : forall cs hs rs sc D st0, 0 < rs -> 0 < hs -> (forall a, In a cs -> 0 < a_thr a) -> NoDup (map a_thr cs) ->
+  0 < D -> D mod hs = 0 ->
+  exists f tr sf, steps f (gs cs hs rs sc D st0) D (init_state (gs cs hs rs sc D st0)) = Some (tr, sf) /\ s_prev sf = D /\
+    (forall e, In e tr -> is_S cs st0 (fst e) (snd e)) /\
+    (forall a, In a cs -> a_thr a <= D ->
+       In (a_thr a) (map fst tr) \/ exists st, (st = st0 \/ In st (map snd tr)) /\ is_S cs st0 (a_thr a) st).
+Proof. intros cs hs rs sc D st0 H1 H2 H3 H4 H5 H6. exact (at_time_set_total cs hs rs sc D st0 H1 H2 H3 H4 H5 H6). Qed.
+(* non-vacuity: four controls on two links, three of them inside the first hydraulic step, one a no-op (link 1 is already open at 5000) *)
+Example C04_at_time_set_run :
+  let cs := [{| a_thr := 2500; a_prio := 3; a_link := 0%nat; a_val := true |}; {| a_thr := 1000; a_prio := 1; a_link := 0%nat; a_val := false |};
+             {| a_thr := 1700; a_prio := 3; a_link := 1%nat; a_val := false |}; {| a_thr := 5000; a_prio := 3; a_link := 0%nat; a_val := true |}] in
+  option_map fst (steps 20 (gs cs 3600 360 0 7200 [true; true]) 7200 (init_state (gs cs 3600 360 0 7200 [true; true])))
+  = Some [(0, [true; true]); (1000, [false; true]); (1700, [false; false]); (2500, [true; false]); (3600, [true; false]); (7200, [true; false])].
+Proof. vm_compute. reflexivity. Qed.
+
 (* a rule IF SYSTEM TIME >= thr (thr > 0), for EVERY threshold, grid and duration: it acts at J * rule_step, the first multiple of the
    rule step that is >= thr (J = ceil(thr / rule_step)); a step is solved there -- also inside a hydraulic step --, nothing changes before
    and the value is kept after *)
@@ -134,6 +163,8 @@ Print Assumptions C04_rule_ge_acts_at_first_instant.
 Print Assumptions C04_priority_wins_one_step.
 Print Assumptions C04_window_exact.
 Print Assumptions C04_window_total.
+Print Assumptions C04_at_time_set_exact.
+Print Assumptions C04_at_time_set_total.
 Print Assumptions C04_at_time_fires_exactly.
 Print Assumptions C04_at_time_silent_otherwise.
 Print Assumptions C04_clock_control_daily_refuted.
